@@ -1,5 +1,5 @@
 SPECIFICATION Spec
 CONSTANTS K = 2
  GEN = FALSE
-INVARIANTS C08_ValidSucceeds C08_SuccessOnlyIfAccepted C08_FailAckNeverSucceeds C08_UnusableKeyFails
+INVARIANTS C08_ValidSucceeds C08_SuccessOnlyIfAccepted C08_FailAckNeverSucceeds C08_UnusableKeyFails C08_ZeroCapsNeverSucceed
 CHECK_DEADLOCK FALSE
